@@ -178,6 +178,15 @@ def run(ctx):
                 s.upd(cid[0], rng.choice([0, 1, 1000, 4096, 65535, 65536, 70001]) if alg != 10 else rng.choice([0, 1, 31, 32, 33, 500]), pick_seed(rng))
             s.lines += ["gets", "free"]
             scens.append(s)
+        # memory runs out inside a read: the call gives nothing, the next reads give the digest (and an update in between is ignored)
+        for _ in range(2):
+            s = Scen(alg)
+            cid[0] += 1; s.upd(cid[0], rng.choice([3, 64, 200]) if alg != 10 else rng.choice([3, 32, 70]), pick_seed(rng))
+            s.lines += ["getsfail", "gets", "getd", "gets", "reset"]
+            s.starts = {0, len(s.parts)}
+            cid[0] += 1; s.upd(cid[0], 5, 7)
+            s.lines += ["getsfail", "getd", "free"]
+            scens.append(s)
         if alg in ((0, 1, 3) if ctx.quick else (0, 1, 3, 5, 7)):
             # single updates of 2^32 bytes and more (the byte counters of the 64-byte-block algorithms are two 32-bit words); after such a
             # message the object is reset and used again - "since the last reset" must hold whatever was hashed before
